@@ -28,3 +28,107 @@ contract(
     },
     properties=["C14"],
 )
+
+
+# ---------------------------------------------------------------------------------------------------------------
+# create_warning, both front ends (Sphinx: document.settings has an `env`): what a warning is, and what suppressing it removes
+from pyvc.spec import assumed  # noqa: E402
+import contracts.assumed_docutils  # noqa: F401,E402
+
+fields("docutils.frontend:Settings", g_has_env="bool", myst_suppress_warnings="list[str] | None", env="SphinxEnv")
+fields("sphinx.environment:SphinxEnv", config="SphinxConfig")
+fields("sphinx.config:SphinxConfig", suppress_warnings="list[str]")
+fields("sphinx.util.logging:SphinxLogger", _opaque="int")
+contract(
+    "ext:sphinx.util.logging.getLogger",
+    types={"__params__": ["name"], "name": "str"},
+    requires=[], ensures=[], returns="SphinxLogger", modifies=["fresh"], trusted=True,
+)
+contract(
+    "ext:SphinxLogger.warning",
+    types={"__params__": ["self", "msg", "type", "subtype", "location"], "self": "SphinxLogger", "msg": "str", "type": "str", "subtype": "str"},
+    requires=[], ensures=[], returns="None", modifies=[], trusted=True,
+)
+contract(
+    "ext:Document.__getitem__[source]",
+    types={"__params__": ["self", "key"], "self": "Document", "key": "str"},
+    requires=[], ensures=[], returns="str", modifies=[], pure=True, trusted=True,
+)
+contract(
+    f"{M}:_create_warning_node",
+    requires=[], ensures=["result.kind == 'system_message'", "result.text == msg", "result.parent is None", "len(result.children) == 0"],
+    returns="Element", modifies=["fresh1"], trusted=True,
+)
+assumed("Sphinx logging / _create_warning_node", "sphinx's logger applies suppress_warnings itself when it emits; _create_warning_node builds a "
+        "system_message node carrying the message (nodes.system_message(msg, ...), docutils)", "sphinx.util.logging")
+fields("docutils.utils:Reporter", _opaque="int")
+fields("docutils.nodes:Document", settings="Settings", reporter="Reporter")
+contract(
+    "ext:Reporter.warning",
+    types={"__params__": ["self", "message"], "self": "Reporter", "message": "str", "__ignore_starargs__": True},
+    requires=[],
+    ensures=["result.kind == 'system_message'", "result.text == message", "result.parent is None", "len(result.children) == 0"],
+    returns="Element", modifies=["fresh1"], trusted=True,
+)
+assumed("Reporter.warning", "document.reporter.warning(msg, line= / base_node=) returns a new system_message node carrying msg (and logs it); "
+        "the position keywords do not change that", "docutils.utils")
+
+SUPPRESSED = ("exists(0, len(SuppressList(document)), lambda k:"
+              " Sup((wtype if wtype is not None else 'myst'), subtype, SuppressList(document)[k]))")
+
+
+@spec
+def SuppressList(document):
+    """The suppress list of the front end in use: Sphinx's `suppress_warnings`, or the MyST docutils setting."""
+    return document.settings.env.config.suppress_warnings if document.settings.g_has_env else document.settings.myst_suppress_warnings
+
+
+MSG = "message + ' [' + (wtype if wtype is not None else 'myst') + '.' + subtype + ']'"
+contract(
+    f"{M}:create_warning",
+    requires=["implies(not document.settings.g_has_env, document.settings.myst_suppress_warnings is not None)",   # (the registered docutils setting: a list, [] by default)
+              "implies(wtype is not None, '.' not in (wtype if wtype is not None else ''))",           # (every caller passes `myst` or a dot-free type: call-site pass)
+              "implies(append_to is not None, append_to.kind != 'Text')"],
+    ensures=[
+        # suppressed (its tag, the bare type, or `type.*` is listed): no node at all - nothing returned, nothing attached
+        f"implies({SUPPRESSED}, result is None and implies(append_to is not None, append_to.children == old(append_to.children)))",
+        # otherwise: exactly one new system_message whose text is the message followed by its tag `[type.subtype]`,
+        # attached (last) to `append_to` if one was given - and only there
+        f"implies(not {SUPPRESSED}, result is not None and fresh(result) and result.kind == 'system_message')",
+        f"implies(not {SUPPRESSED} and wtype is None, result.text == message + ' [myst.' + subtype + ']')",
+        f"implies(not {SUPPRESSED} and wtype is not None, result.text == message + ' [' + wtype + '.' + subtype + ']')",
+        f"implies(not {SUPPRESSED} and append_to is not None, len(append_to.children) == len(old(append_to.children)) + 1"
+        " and append_to.children[: len(old(append_to.children))] == old(append_to.children)"
+        " and append_to.children[len(old(append_to.children))] == result)",
+        "forall_obj('Element', lambda e: implies(old(allocated(e)) and e != append_to, e.children == old(e.children)))",
+    ],
+    types={"document": "Document", "subtype": "str", "node": "None", "append_to": "Element | None", "line": "int | None", "kwargs": "dict[str, int | None]"},
+    raises={},
+    modifies=["Element.children", "Element.parent", "fresh"],
+    properties=["C14"],
+)
+
+
+# the renderer's own entry point is a pass-through to create_warning with its document: the same contract, `document` read as
+# `self.document` (every warning of the renderers goes through here - the call sites are the flow pass of C14)
+B = "myst_parser.mdit_to_docutils.base"
+fields(f"{B}:DocutilsRenderer", document="Document")
+_cw = REG_CW = None
+from pyvc.spec import REG as _REG  # noqa: E402
+
+_cw = _REG.funs[f"{M}:create_warning"]
+
+
+def _sub(clause):
+    return clause.replace("document.", "self.document.").replace("(document)", "(self.document)")
+
+
+contract(
+    f"{B}:DocutilsRenderer.create_warning",
+    requires=[_sub(c) for c in _cw.requires],
+    ensures=[_sub(c) for c in _cw.ensures],
+    types={"subtype": "str", "append_to": "Element | None", "line": "int | None"},
+    raises={},
+    modifies=["Element.children", "Element.parent", "fresh"],
+    properties=["C14"],
+)
